@@ -139,8 +139,10 @@ def compare(impl, model, channels, canon=None):
                 # `remove_component` despawns the entities that have the component in an unspecified order. When more than
                 # one entity is despawned and handlers react to it, the two sides may legitimately end in different states
                 # (ordinals, serials, even how far a budgeted cascade gets): nothing from here on can CONFIRM a violation.
-                targets = {m for l in il + ml for m in re.findall(r"Despawn@(#\d+|\?\S+)", l)}
-                if len(targets) >= 2:
+                k = op.split(" ")[1]
+                prev = [l for l in (iops[i - 1][1] if i > 0 else []) if l.startswith("st ")]
+                holders = len(re.findall(r"[{,]" + re.escape(k) + r"[:,}]", prev[0])) if prev else 2
+                if holders >= 2:
                     break
             if canon and op.startswith("setgen ") and il != ml:
                 # the generation hook acts on whichever slot the entity happens to occupy: a different (unspecified) slot
